@@ -80,19 +80,21 @@ func genScenario(r *common.Rand) *Scenario {
 	n := 1 + r.Pick(3)
 	sc := &Scenario{}
 	keys := []int{0, 0, 0, 2, 1}
+	evn := 0
+	var evs []int
+	newEv := func() int { // pairwise distinct events; the residue mod 3 drives the filters
+		evn++
+		e := 3*evn + r.Pick(3)
+		evs = append(evs, e)
+		return e
+	}
 	for i := 1; i <= n; i++ {
 		c := sub(i, common.PickOf(r, keys), 1+r.Pick(2))
 		c.Hb = r.Chance(1, 3)
 		c.HbFail = c.Hb && r.Chance(1, 4)
 		c.Flt = common.PickOf(r, []int{0, 0, 0, 1, 2, 3})
-		if r.Chance(1, 6) {
-			c.WFail = r.Pick(6)
-		}
-		if r.Chance(1, 6) {
-			c.FFail = r.Pick(6)
-		}
 		c.Hook = common.PickOf(r, []string{"ok", "ok", "ok", "ok", "fail", "emit"})
-		c.HookEv = r.Pick(6)
+		c.HookEv = newEv()
 		c.Start = common.PickOf(r, []string{"ok", "ok", "ok", "ok", "fail"})
 		c.Sync = r.Chance(1, 8)
 		sc.Subs = append(sc.Subs, c)
@@ -103,6 +105,17 @@ func genScenario(r *common.Rand) *Scenario {
 	// client lanes
 	for i := 1; i <= n; i++ {
 		l := []Op{{"sub", i, 0}}
+		if sc.Subs[i-1].Sync {
+			if r.Chance(1, 2) {
+				l = append(l, Op{"cancelctx", i, 0})
+			}
+			// the cancel must be able to overtake the blocked call: own lane
+			sc.Lanes = append(sc.Lanes, l[:1])
+			if len(l) > 1 {
+				sc.Lanes = append(sc.Lanes, l[1:])
+			}
+			continue
+		}
 		switch r.Pick(5) {
 		case 0:
 			l = append(l, Op{"unsub", i, 0})
@@ -120,9 +133,9 @@ func genScenario(r *common.Rand) *Scenario {
 		var l []Op
 		m := 1 + r.Pick(3)
 		for k := 0; k < m; k++ {
-			ev := r.Pick(6)
+			ev := newEv()
 			if r.Chance(1, 10) {
-				ev = 100
+				ev = 100 + evn
 			}
 			l = append(l, Op{"update", owner, ev})
 		}
@@ -137,6 +150,14 @@ func genScenario(r *common.Rand) *Scenario {
 			l = append(l, Op{"close", owner, 1 + r.Pick(n)})
 		}
 		sc.Lanes = append(sc.Lanes, l)
+	}
+	for i := range sc.Subs {
+		if r.Chance(1, 6) {
+			sc.Subs[i].WFail = common.PickOf(r, evs)
+		}
+		if r.Chance(1, 6) {
+			sc.Subs[i].FFail = common.PickOf(r, evs)
+		}
 	}
 	// cleanup lane: every run ends with all clients gone or the resolver shut down
 	var cl []Op
@@ -185,7 +206,42 @@ func choicesStr(c []int) string {
 }
 
 func emit(out *common.Out, fam, idx int, seed uint64, res Result) {
-	out.Line(fmt.Sprintf("(run (scn %d %d %d) (choices %q) %s)", fam, idx, seed, choicesStr(res.Choices), res.Line))
+	out.Line(fmt.Sprintf("(run (scn %d %d %d) (choices %q) %s)", fam, idx, seed, strings.Join(res.Sched, ","), res.Line))
+}
+
+// byName replays a schedule given as labels (lane "L<i>" to start its next op, actor name to
+// release); a label that is not available falls back to the first candidate.
+func byName(sched []string) chooser {
+	return func(step int, labels []string) int {
+		if step < len(sched) {
+			for i, l := range labels {
+				if l == sched[step] {
+					return i
+				}
+			}
+		}
+		return 0
+	}
+}
+
+func byIndex(prefix []int) chooser {
+	return func(step int, labels []string) int {
+		if step < len(prefix) && prefix[step] < len(labels) {
+			return prefix[step]
+		}
+		return 0
+	}
+}
+
+func splitSched(s string) []string {
+	var out []string
+	for _, p := range strings.Split(s, ",") {
+		p = strings.TrimSpace(p)
+		if p != "" {
+			out = append(out, p)
+		}
+	}
+	return out
 }
 
 func main() {
@@ -203,15 +259,39 @@ func main() {
 		var fam, idx int
 		var sd uint64
 		fmt.Sscanf(args["scn"], "%d %d %d", &fam, &idx, &sd)
-		ch := parseChoices(args["choices"])
 		sc := scenarioOf(fam, idx, sd)
-		res := runSchedule(sc, func(step, n int) int {
-			if step < len(ch) && ch[step] < n {
-				return ch[step]
-			}
-			return 0
-		}, maxSteps)
+		res := runSchedule(sc, byName(splitSched(args["choices"])), maxSteps)
 		emit(out, fam, idx, sd, res)
+	case "corpus":
+		// lines: "<family> <index> <seed> <choices>"  (# comments)
+		data, err := os.ReadFile(args["in"])
+		if err != nil {
+			fmt.Fprintln(os.Stderr, err)
+			os.Exit(1)
+		}
+		for _, ln := range strings.Split(string(data), "\n") {
+			ln = strings.TrimSpace(ln)
+			if ln == "" || strings.HasPrefix(ln, "#") {
+				continue
+			}
+			f := strings.Fields(ln)
+			if len(f) < 3 {
+				continue
+			}
+			fam, _ := strconv.Atoi(f[0])
+			idx, _ := strconv.Atoi(f[1])
+			sd, _ := strconv.ParseUint(f[2], 10, 64)
+			var ch []string
+			if len(f) > 3 {
+				ch = splitSched(f[3])
+			}
+			sc := scenarioOf(fam, idx, sd)
+			if sc == nil {
+				continue
+			}
+			res := runSchedule(sc, byName(ch), maxSteps)
+			emit(out, fam, idx, sd, res)
+		}
 	case "explore":
 		budget := time.Duration(common.ArgInt(args, "ms", 20000)) * time.Millisecond
 		perFam := common.ArgInt(args, "perfam", 150)
@@ -225,12 +305,7 @@ func main() {
 			sc := family(fam)
 			var prefix []int
 			for k := 0; k < perFam && time.Since(t0) < budget; k++ {
-				res := runSchedule(sc, func(step, n int) int {
-					if step < len(prefix) && prefix[step] < n {
-						return prefix[step]
-					}
-					return 0
-				}, maxSteps)
+				res := runSchedule(sc, byIndex(prefix), maxSteps)
 				emit(out, fam, 0, seed, res)
 				runs++
 				// next prefix: increment the last position that has an untried alternative
@@ -246,7 +321,7 @@ func main() {
 			}
 			// plus seeded random schedules of the same family
 			for k := 0; k < perFam/3 && time.Since(t0) < budget; k++ {
-				res := runSchedule(sc, func(step, n int) int { return r.Pick(n) }, maxSteps)
+				res := runSchedule(sc, func(step int, labels []string) int { return r.Pick(len(labels)) }, maxSteps)
 				emit(out, fam, 0, seed, res)
 				runs++
 			}
@@ -254,7 +329,7 @@ func main() {
 		for idx := 0; idx < nrand && time.Since(t0) < budget; idx++ {
 			sc := scenarioOf(-1, idx, seed)
 			for k := 0; k < perRand && time.Since(t0) < budget; k++ {
-				res := runSchedule(sc, func(step, n int) int { return r.Pick(n) }, maxSteps)
+				res := runSchedule(sc, func(step int, labels []string) int { return r.Pick(len(labels)) }, maxSteps)
 				emit(out, -1, idx, seed, res)
 				runs++
 			}
